@@ -404,6 +404,8 @@ def monitor_seq(case, impl):
     for idx, ((single, pj), i) in enumerate(zip(calls, is_)):
         if not call_valid(single, pj):
             continue
+        if i.strip().startswith("CLOBBERED"):
+            return ("aliasing", "call %d of the sequence: %s" % (idx, i.strip()[:200]))
         mf = monitor(single, i.strip())
         if mf is not None:
             kinds = []
